@@ -1480,8 +1480,12 @@ def _run(c, quick, counts, hits, broken):
     # =============================================================== phase A: the real code (no Lean)
     # ---- 0. deterministic Assemble stream
     bad = assemble_stream(c, counts)
+    def separated(combo):
+        adv = [k for k, x in enumerate(combo) if x != 'R']
+        return bool(adv) and adv[-1] - adv[0] != len(adv) - 1 and any(combo[k] != '0' for k in adv)
+    only_separated = all(separated(b[0]) for b in bad)
     for combo, kind, e, args, script, got in bad[:1]:
-        c.failing_input('compile-wrong-value:optimize:Assemble-inplace-separated-advanced-indices' if kind == 'ok' else 'compile-raises:optimize:Assemble-inplace-separated-advanced-indices',
+        c.failing_input(('compile-wrong-value' if kind == 'ok' else 'compile-raises') + (':optimize:Assemble-inplace-separated-advanced-indices' if only_separated else ':base:Add+Assemble'),
                         'in-place Assemble with index kinds %s is wrong (%d of the index-kind tuples fail)' % (''.join(combo), len(bad)),
                         dict(index_kinds=''.join(combo), outcome=kind, got=got, script=script, pickled=pack(e, [args]), failing_tuples=[''.join(b[0]) for b in bad]))
     c.obligation('stream:assemble-index-kinds', not bad, 'correspondence', '%d index-kind tuples through the in-place Assemble path, exact integer oracle' % counts['assemble-stream'])
